@@ -536,3 +536,63 @@ func subOverflows(a, b Integer) bool {
 //@ loop 1 invariant [C07.end] forall k :: 0 <= k && k < len(intp.Stack) ==> intp.Stack[k] == old(intp.Stack[k])
 //@ loop 1 invariant [C07.end] len(intp.cmapMappings.NotdefRanges) == old(len(intp.cmapMappings.NotdefRanges)) && (forall k :: 0 <= k && k < len(intp.cmapMappings.NotdefRanges) ==> intp.cmapMappings.NotdefRanges[k] == old(intp.cmapMappings.NotdefRanges[k]))
 //@ loop 1 invariant [C07.end] forall k :: 0 <= k && k < i ==> intp.cmapRanges[k].Dst == intp.Stack[base+3*k+2] && isType(intp.Stack[base+3*k], String) && isType(intp.Stack[base+3*k+1], String) && ref(intp.cmapRanges[k].Low) == ref(intp.Stack[base+3*k].(String)) && ref(intp.cmapRanges[k].High) == ref(intp.Stack[base+3*k+1].(String)) && len(intp.cmapRanges[k].Low) == len(intp.cmapRanges[k].High)
+
+// ---------------------------------------------------------------------
+// C05: eexec decryption (Adobe Type 1 Font Format section 7: key 55665,
+// multipliers 52845 and 22719)
+
+//@ func (*scanner).eexecDecode
+//@ ensures [C05.cipher.step] result == b ^ byte(old(s.r) >> 8) && s.r == (uint16(b)+old(s.r))*52845 + 22719
+//@ ensures [C05.cipher.frame] s.eexec == old(s.eexec) && s.pos == old(s.pos) && s.used == old(s.used) && len(s.peek) == old(len(s.peek))
+
+//@ func (*scanner).EndEexec
+//@ ensures [C05.end] s.eexec == 0 && s.pos == old(s.pos) && s.used == old(s.used) && len(s.peek) == old(len(s.peek))
+
+//@ func (*scanner).BeginEexec
+//@ ensures [C05.begin.nested] old(s.eexec) != 0 ==> isPSErr(result, eInvalidaccess) && s.eexec == old(s.eexec)
+//@ ensures [C05.begin.mode] result == nil ==> (s.eexec == 1 || s.eexec == 2) && !s.regurgitate
+//@ loop 1 invariant [C05.begin] s.eexec == 0
+
+//@ func (*scanner).readByteEexec
+//@ ensures [C05.binary] old(s.eexec) == 2 && result1 == nil ==> s.eexec == 2
+
+//@ func bClosefile
+//@ ensures [C05.closefile] old(depth(intp)) >= 1 && old(top(intp, 0)) == nil ==> result == io.EOF && depth(intp) == old(depth(intp)) - 1 && stackFrame(intp, 1)
+//@ ensures [C05.closefile.type] old(depth(intp)) >= 1 && old(top(intp, 0)) != nil ==> isPSErr(result, eTypecheck) && depth(intp) == old(depth(intp))
+
+//@ func eexec
+//@ ensures [C05.eexec.operand] old(depth(intp)) >= 1 && old(top(intp, 0)) != nil ==> isPSErr(result, eTypecheck) && depth(intp) == old(depth(intp)) && len(intp.DictStack) == old(len(intp.DictStack))
+//@ ensures [C05.eexec.restore] result == nil ==> len(intp.DictStack) == old(len(intp.DictStack))
+
+// ---------------------------------------------------------------------
+// C13: read faults are sticky and surface
+
+//@ func (*scanner).refill
+//@ ensures [C13.refill.err] result != nil ==> s.err != nil && result == s.err
+//@ ensures [C13.refill.sticky] old(s.err) != nil ==> s.err == old(s.err) && result == s.err
+//@ ensures [C13.refill.mode] s.eexec == old(s.eexec)
+
+//@ func (*scanner).readByteRaw
+//@ ensures [C13.raw.err] result1 != nil ==> s.err != nil
+//@ ensures [C13.raw.sticky] old(s.err) != nil ==> s.err == old(s.err)
+//@ ensures [C13.raw.mode] s.eexec == old(s.eexec)
+//@ loop 1 invariant [C13.raw] s.eexec == old(s.eexec) && (old(s.err) != nil ==> s.err == old(s.err))
+
+//@ func (*scanner).readByte
+//@ ensures [C13.byte.err] old(s.eexec) == 0 && result1 != nil ==> s.err != nil
+//@ ensures [C13.byte.mode] s.eexec == old(s.eexec)
+
+//@ func (*scanner).PeekN
+//@ ensures [C13.peekn.short] old(s.eexec) == 0 && len(result) < n ==> s.err != nil
+//@ ensures [C13.peekn.mode] s.eexec == old(s.eexec)
+//@ loop 1 invariant [C13.peekn] s.eexec == old(s.eexec)
+
+//@ func (*scanner).Peek
+//@ ensures [C13.peek.mode] s.eexec == old(s.eexec)
+//@ loop 1 invariant [C13.peek] s.eexec == old(s.eexec)
+
+//@ func (*scanner).Next
+//@ ensures [C13.next.mode] s.eexec == old(s.eexec)
+
+//@ func (*scanner).SkipByte
+//@ ensures [C13.skip.mode] s.eexec == old(s.eexec)
